@@ -227,18 +227,44 @@ def closure_coq(cl) -> str:
 
 # ---- running the real compiler --------------------------------------------------------------------
 
-def run_emit(cases: List[dict], nproc: int = NCPU, timeout: int = 2400) -> List[dict]:
+HANG_RESULT = dict(ok=False, exc="HANG", hang="worker", is_parser_error=False, model=None, compile_exc=None, outputs={},
+                   separate={}, load={}, rt=None, det=None)
+
+
+def _run_worker(ch: List[dict], timeout: float):
+    """one worker process over a list of cases; None if it did not finish in time (the process is killed)"""
+    try:
+        p = subprocess.run([PY, str(VERIF / "vlib" / "defs_emit_worker.py")], input=json.dumps(ch),
+                           capture_output=True, text=True, env=impl_env(), timeout=timeout, cwd="/")
+    except subprocess.TimeoutExpired:
+        return None
+    if p.returncode != 0:
+        raise RuntimeError("defs_emit_worker failed: " + p.stderr[-1500:])
+    return json.loads(p.stdout)
+
+
+def run_emit(cases: List[dict], nproc: int = NCPU, timeout: int = 2400, per_case: float = 300.0) -> List[dict]:
+    """The real compiler + loaders on every case.  Nothing here can run for ever: each stage of a case has a watchdog
+    inside the worker (defs_emit_worker.py: parse / compile / re-parse by SIGALRM, loaders by subprocess timeout) and
+    reports exc="HANG" with the stage; should a worker process still not come back (a loop the alarm cannot
+    interrupt), it is killed after its budget and its cases are re-run one by one, each in its own process with a
+    hard timeout - the case that does not come back is reported as exc="HANG", hang="worker"."""
     if not cases:
         return []
     nproc = max(1, min(nproc, len(cases)))
     chunks = [cases[i::nproc] for i in range(nproc)]
 
     def work(ch):
-        p = subprocess.run([PY, str(VERIF / "vlib" / "defs_emit_worker.py")], input=json.dumps(ch),
-                           capture_output=True, text=True, env=impl_env(), timeout=timeout, cwd="/")
-        if p.returncode != 0:
-            raise RuntimeError("defs_emit_worker failed: " + p.stderr[-1500:])
-        return json.loads(p.stdout)
+        budget = min(float(timeout), 240.0 + 25.0 * len(ch))
+        r = _run_worker(ch, budget)
+        if r is not None:
+            return r
+        out = []
+        for c in ch:                       # isolate the case(s) that do not terminate
+            r1 = _run_worker([c], per_case)
+            out.append(r1[0] if r1 is not None else dict(HANG_RESULT, msg=f"the worker did not come back within {per_case:g} s "
+                                                                         "(no stage watchdog fired: a loop outside the Python interpreter)"))
+        return out
 
     with ThreadPoolExecutor(nproc) as ex:
         rs = list(ex.map(work, chunks))
